@@ -81,7 +81,7 @@ def parse_eh_frame(elf):
         length, = struct.unpack_from("<I", data, off)
         off += 4
         if length == 0:
-            break  # terminator
+            continue  # zero terminator (crtend-style); may legitimately appear mid-section
         if length == 0xFFFFFFFF:
             length, = struct.unpack_from("<Q", data, off)
             off += 8
